@@ -10,7 +10,7 @@ from pathlib import Path
 V = Path('/verif')
 man = json.load(open(V / 'MANIFEST.json'))
 PIDS = [c['property_id'] for c in man['checks']]
-seeds = sorted(p.name for p in (V / 'seeded').iterdir() if p.name.startswith('P-') and (p / 'patch.diff').exists()
+seeds = sorted(p.name for p in (V / 'seeded').iterdir() if p.name.startswith(('P-', 'Q-')) and (p / 'patch.diff').exists()
                and 'obsolete' not in json.load(open(p / 'meta.json')))
 if len(sys.argv) > 1:
     seeds = [s for s in seeds if s in sys.argv[1:]]
